@@ -10,15 +10,15 @@ vars == <<scope, prog>>
 
 IntLits == {IntV(0), IntV(1), IntV(2), IntV(3), IntV(5), IntV(7)}
 StrLits == {Str("a"), Str("b"), Str("ab"), Str("")}
-ListLits == {List(<<IntV(1), IntV(2), IntV(3)>>), List(<<IntV(4)>>), List(<<IntV(9)>>), List(<<IntV(2), IntV(2)>>), List(<<IntV(5), IntV(1)>>),
+ListLits == {List(<<IntV(1), IntV(2), IntV(3)>>), List(<<IntV(4)>>), List(<<IntV(9)>>), List(<<IntV(2), IntV(2)>>), List(<<IntV(5), IntV(1)>>), List(<<IntV(1), IntV(2), IntV(1), IntV(2), IntV(1), IntV(2)>>),
              List(<<IntV(1), IntV(2), IntV(3), IntV(4), IntV(5)>>), List(<<Str("a"), Str("b")>>), List(<<Str("ab")>>)}
 SetLits == {Set({IntV(1), IntV(2)}), Set({IntV(2), IntV(3)}), Set({IntV(7)}), Set({IntV(1), IntV(2), IntV(3), IntV(4)}),
             Set({Str("a"), Str("ab")}), Set({Str("b")})}
 Lits == IntLits \cup StrLits \cup ListLits \cup SetLits \cup {Bool(TRUE), Bool(FALSE)}
 
 AllOps == {"add", "sub", "mul", "div", "mod", "lt", "le", "gt", "ge", "eq", "ne", "cat", "and", "neg", "ite",
-        "lcat", "union", "count", "in", "notin", "where", "tform", "tconst", "lit", "mkmap", "attr", "mapt"}
-Ops == IF Focus = "concat" THEN {"lit", "lcat", "union"} ELSE IF Focus = "collections" THEN {"lit", "lcat", "union", "count", "where", "tform", "tconst", "mkmap", "attr", "mapt"} ELSE AllOps
+        "lcat", "union", "count", "in", "notin", "where", "tform", "tconst", "tset", "lit", "mkmap", "attr", "mapt"}
+Ops == IF Focus = "concat" THEN {"lit", "lcat", "union"} ELSE IF Focus = "collections" THEN {"lit", "lcat", "union", "count", "where", "tform", "tconst", "tset", "mkmap", "attr", "mapt"} ELSE AllOps
 Arity(op) == IF op \in {"neg", "count", "lit", "attr"} THEN 1 ELSE IF op \in {"ite", "mkmap"} THEN 3 ELSE 2
 
 \* kind of a value incl. the element kind of collections (an empty collection counts as one of integers)
@@ -38,7 +38,7 @@ Sigs(op) ==
     [] op = "count" -> {<<"list:int">>, <<"list:str">>, <<"set:int">>, <<"set:str">>, <<"list:map">>, <<"set:map">>}
     [] op \in {"in", "notin"} -> {<<"str", "list:str">>, <<"str", "set:str">>}
     [] op = "where" -> {<<"set:int", "int">>}
-    [] op \in {"tform", "tconst"} -> {<<"list:int", "int">>, <<"set:int", "int">>}
+    [] op \in {"tform", "tconst", "tset"} -> {<<"list:int", "int">>, <<"set:int", "int">>}
     [] op = "mkmap" -> {<<"int", "int", "int">>}
     [] op = "attr" -> {<<"map">>}
     [] op = "mapt" -> {<<"map", "int">>}
